@@ -20,7 +20,8 @@ RULE = ("one run = one line (connected or stand-alone, vlevel 0-3) with 1-6 tag 
         "distinct (datatype, value digest, vlevel, path) tuples")
 PROBES = ["representable_roundtrip", "unrepresentable_reported", "declared_datatype", "default_datatype",
           "b_subtype_boundary", "connected_file_restart", "overwrite_same_tag", "set_rejected_at_level3",
-          "nonfinite_float", "string_with_control", "interleaved_edit", "set_none", "set_via_accessor", "header_add"]
+          "nonfinite_float", "string_with_control", "interleaved_edit", "set_none", "set_via_accessor", "header_add",
+          "field_arrays_built_empty"]
 STUBS = ["disk: gfapy.gfa.open -> SimDisk"]
 
 BASE_LINES = {
@@ -242,6 +243,10 @@ def gen(streams, tier, i):
         else:
             ops.append({"op": "checkpoint", "how": vr.choice(["str", "file"])})
     ops.append({"op": "checkpoint", "how": vr.choice(["str", "file", "str"])})
+    if vr.random() < 0.08:
+        # two multi-valued header tags given as field arrays that the caller builds empty and fills afterwards
+        ops.append({"op": "field_arrays", "a": [vr.randint(0, 9) for _ in range(vr.randint(1, 3))],
+                    "b": [vr.randint(10, 19) for _ in range(vr.randint(1, 3))]})
     return {"cfg": {"version": version, "vlevel": vlevel, "base": base, "connected": connected}, "ops": ops}
 
 
@@ -274,6 +279,27 @@ def run(scn, st):
     for n, op in enumerate(scn["ops"]):
         st.step()
         st.count("op." + op["op"])
+        if op["op"] == "field_arrays":
+            st.count("probe.field_arrays_built_empty")
+            st.count("oracle.field_arrays")
+            hh = core.call(gfapy.Line, "H", vlevel=vlevel)
+            if not hh.ok:
+                continue
+            fa, fb = gfapy.FieldArray("i"), gfapy.FieldArray("i")
+            for x in op["a"]:
+                fa.append(x)
+            for x in op["b"]:
+                fb.append(x)
+            if not (core.call(hh.value.set, "za", fa).ok and core.call(hh.value.set, "zb", fb).ok):
+                continue
+            t = core.call(str, hh.value)
+            want = ["za:i:%d" % x for x in op["a"]] + ["zb:i:%d" % x for x in op["b"]]
+            got = sorted(f for f in (t.value.split("\t")[1:] if t.ok else []))
+            if not t.ok or got != sorted(want):
+                raise core.Violation("written-differs", "header tags za=%r, zb=%r (field arrays filled after they were "
+                                     "created) are written as %r" % (op["a"], op["b"], t.value if t.ok else t.excname),
+                                     kind="field_arrays")
+            continue
         if op.get("tag") == "LN" and "LN" not in acked:
             # once the LN tag is gone the name is the alias of slen again: not a tag operation
             continue
